@@ -647,6 +647,10 @@ impl LyNative for ListSort {
 
     hooks.pop_roots(1);
 
+    if let Some(failure) = failure {
+      return failure;
+    }
+
     Call::Ok(val!(list))
   }
 }
